@@ -26,7 +26,7 @@ CHECKS = {
     "C03": (
         "property-based differential testing (proptest): timing skeleton of every encoding x timing variant against the reference Z80's bus-cycle breakdown",
         "exploration",
-        "For generated states biased to select every timing variant, all 1792 encodings are executed on both models and the ordered (kind, clocks, address) skeleton including every single delay T-state and the T total is compared; interrupt entry (IM 0/1/2, NMI) and HALT refetch totals and memory cycles likewise. Coverage of 17 named variants and 5 entry kinds is asserted (a generator hole is exit 2).",
+        "For generated states biased to select every timing variant, all 1792 encodings are executed on both models and the ordered (kind, clocks, address) skeleton including every single delay T-state and the T total is compared; interrupt entry (IM 0/1/2, NMI) and HALT refetch totals and memory cycles likewise. Coverage of 17 named variants and 5 entry kinds is asserted (a generator hole is exit 2). Acknowledge T-states presented as addressed delays must carry the return address; an internal delay of several T-states in one bus call is an anomaly; compare instructions meet A-(HL) in {0, 1, 0xFF, 0x10}.",
         REF + "The reference breakdown follows the published Spectrum contention tables and has its own documented-T-state self-check.",
         "DESIGN.md sections 3 and 5 (C03)",
         "E1 reference Z80 + trace bus",
@@ -34,7 +34,7 @@ CHECKS = {
     "C04": (
         "property-based differential testing (proptest): single instructions at generated frame positions and memory placements against reference Z80 bus cycles + contention model",
         "exploration",
-        "Each sub-case places one of the 1792 encodings, its operands, stack, I register and port address in contended/uncontended memory (both machines, any 128K paging), sets the frame clock through the hook with forced coverage of every residue mod 8 and the window/line/frame edges, executes it on the emulator and on the reference machine and compares the end T-state (incl. frame wraps) exactly; registers and written memory as side condition.",
+        "Each sub-case places one of the 1792 encodings, its operands, stack, I register and port address in contended/uncontended memory (both machines, any 128K paging), sets the frame clock through the hook with forced coverage of every residue mod 8 and the window/line/frame edges, executes it on the emulator and on the reference machine and compares the end T-state (incl. frame wraps) exactly; registers and written memory as side condition. Half of the 128K sub-cases set the latch by a real OUT, a third of those lock it and then issue an ignored write; a quarter of the cases run with a host I/O extender claiming a port class (claimed ports are timed like any other).",
         REF + "Contention model transcribed from the property text (per-line restart of the pattern on the 128K, see DESIGN.md section 8) and self-checked; floating-bus/AY read data not modelled (time still compared).",
         "DESIGN.md sections 4 and 5 (C04)",
         "E2 reference machine + emulator lock-step",
@@ -42,7 +42,7 @@ CHECKS = {
     "C05": (
         "property-based differential testing (proptest) of generated interrupt-driven programs against a time-conserving reference machine; exhaustive enumeration of boundary T-states around the INT pulse",
         "exploration",
-        "Generated programs (busy, HALT-driven, EI/DI toggling, short re-entrant and long self-counting handlers, IM 0/1/2, code in contended/uncontended/paged RAM) run for 1..200 frames per emulate_frames call; after every call frame counter, frame clock, registers and HALT state must equal a reference machine whose time is one monotone T counter with INT asserted iff T mod frame length < 32; RAM compared at the end. The boundary T-states 0..79 and the last 40 of the frame are enumerated exhaustively for acceptance.",
+        "Generated programs (busy, HALT-driven, EI/DI toggling, short re-entrant and long self-counting handlers, IM 0/1/2, code in contended/uncontended/paged RAM) run for 1..200 frames per emulate_frames call; after every call frame counter, frame clock, registers and HALT state must equal a reference machine whose time is one monotone T counter with INT asserted iff T mod frame length < 32; RAM compared at the end. The boundary T-states 0..79 and the last 40 of the frame are enumerated exhaustively for acceptance. Further stages: paging-port writes (lock included) in the programs, a host I/O extender claiming the programs' ports, a host poke into contended RAM with the machine stopped mid-frame (takes no time), and a phase with a tape playing in real time, including a tape error after which the host carries on.",
         REF + "Programs avoid prefix chains and unclaimed-port reads so that one emulate() = optional interrupt entry + one instruction.",
         "DESIGN.md sections 4 and 5 (C05)",
         "E2 reference machine + emulator lock-step",
@@ -50,7 +50,7 @@ CHECKS = {
     "C06": (
         "property-based testing (proptest) of port-write/memory-access histories against a reference memory map executed by the emulated CPU",
         "exploration",
-        "Histories of paging writes (all values, before and after lock, near-miss ports) and reads/writes at window-edge-biased addresses are executed instruction by instruction on the emulator; every read, then all 65536 addresses, every RAM bank and the paging state are compared with a 40-line reference memory map, with embedded and host-supplied ROM images.",
+        "Histories of paging writes (all values, before and after lock, near-miss ports) and reads/writes at window-edge-biased addresses are executed instruction by instruction on the emulator; every read, then all 65536 addresses, every RAM bank and the paging state are compared with a 40-line reference memory map, with embedded and host-supplied ROM images. Host-supplied ROM sets arrive all at once or in short reads, and load_rom of another ROM set is an operation of the history.",
         "Trusted: the reference memory map written from the property text; RAM/paging hooks. Even paging-class addresses (also ULA) are not generated.",
         "DESIGN.md section 5 (C06)",
         "E2 memory model + emulator lock-step",
@@ -58,7 +58,7 @@ CHECKS = {
     "C07": (
         "exhaustive enumeration of all 65536 port addresses x read/write per device configuration with a decode oracle; property-based testing (proptest) of floating-bus reads",
         "exploration",
-        "All 65536 addresses are read and written by the emulated CPU on six device configurations plus generated I/O-extender claim predicates; routing is judged where the property's decode predicates select exactly one device (or none), every access also checks that no other device changed state and that the extender log holds exactly the claimed accesses. Unclaimed reads at generated beam positions must be 0xFF outside the fetch windows and otherwise 0xFF or a display/attribute byte of the line being fetched in the displayed bank.",
+        "All 65536 addresses are read and written by the emulated CPU on six device configurations plus generated I/O-extender claim predicates; routing is judged where the property's decode predicates select exactly one device (or none), every access also checks that no other device changed state and that the extender log holds exactly the claimed accesses. Unclaimed reads at generated beam positions must be 0xFF outside the fetch windows and otherwise 0xFF or a display/attribute byte of the line being fetched in the displayed bank. Well inside a fetch window one of eight consecutive start times must show a fetched byte. A further phase changes the extender's claims between accesses of the same port.",
         "Trusted: decode predicates from the property text (conservative reading of the mouse decode), state observation through border_color(), paging hook and unclaimed AY helper ports. EAR polarity belongs to C11.",
         "DESIGN.md section 5 (C07)",
         "E2 emulator lock-step",
@@ -66,7 +66,7 @@ CHECKS = {
     "C08": (
         "property-based testing (proptest) with an independent screen decoder; metamorphic over delivery paths",
         "exploration",
-        "Generated screen contents are delivered through CPU writes via 0x4000 and 0xC000 (bank 5/7), execute_poke, SCR, SNA, SZX (stored/zlib) and fast tape load, on both machines and both 128K screen banks, over 1..40 idle frames; every delivered canvas must equal the independent standard decode with a flash phase that toggles in runs of exactly 16 frames; single bytes written clearly before/after the beam must appear in the current/next frame.",
+        "Generated screen contents are delivered through CPU writes via 0x4000 and 0xC000 (bank 5/7), execute_poke, SCR, SNA, SZX (stored/zlib) and fast tape load, on both machines and both 128K screen banks, over 1..40 idle frames; every delivered canvas must equal the independent standard decode with a flash phase that toggles in runs of exactly 16 frames; single bytes written clearly before/after the beam must appear in the current/next frame. Further paths and stages: poke and fast load through 0xC000, files delivered in short reads, 128K screen-bank flip, a history of real paging-port writes after delivery (lock included), a 48K SNA save with SP inside the display file, and in the beam phase writes into a displayed bank 7 and a rewrite of the latched value after the byte write.",
         "Trusted: decoder written from the property formula; harness FrameBuffer; the harness' SNA/SZX/TAP writers.",
         "DESIGN.md section 5 (C08)",
         "E3 formats + emulator",
@@ -74,7 +74,7 @@ CHECKS = {
     "C09": (
         "property-based differential testing (proptest): generated OUT programs timestamped by the reference machine vs. every border pixel",
         "exploration",
-        "Looping programs of delays and OUTs to even ports run on emulator and reference machine; after every completed frame each of the 27648 border pixels must show a colour that was current within 8 T-states of its beam time, border_color() must equal the last written low bits, frames without writes show the current colour, and a loaded snapshot's border is reported and shown.",
+        "Looping programs of delays and OUTs to even ports run on emulator and reference machine; after every completed frame each of the 27648 border pixels must show a colour that was current within 8 T-states of its beam time, border_color() must equal the last written low bits, frames without writes show the current colour, and a loaded snapshot's border is reported and shown. A quarter of the programs run with an unrelated I/O extender attached; the snapshot phase also loads SZX files whose port-0xFE field differs from the border field and lets the loaded program write the byte written last before the load.",
         REF + "Border raster geometry from the property text.",
         "DESIGN.md section 5 (C09)",
         "E2 reference machine + emulator",
@@ -82,7 +82,7 @@ CHECKS = {
     "C10": (
         "property-based testing (proptest) of TAP images x LD-BYTES request sequences against a ROM-listing model of LD-BYTES",
         "exploration",
-        "The ROM routine at 0x0556 is called from a RAM stub with generated A/carry/IX/DE against generated TAP images (buffer-boundary lengths, wrong checksums, truncated tails), several requests in sequence and past the end of the tape; carry, IX, DE and all RAM (outside system variables and stack) are compared with an LD-BYTES model written from the ROM disassembly; past the end the routine must not succeed and CPU state must stay intact.",
+        "The ROM routine at 0x0556 is called from a RAM stub with generated A/carry/IX/DE against generated TAP images (buffer-boundary lengths, wrong checksums, truncated tails), several requests in sequence and past the end of the tape; carry, IX, DE and all RAM (outside system variables and stack) are compared with an LD-BYTES model written from the ROM disassembly; past the end the routine must not succeed and CPU state must stay intact. Preludes: an SZX loaded first, latch locked then an ignored paging write, PLAY+STOP, fast loading switched on / off at run time; a fifth of the cases with a debugger breakpoint on the trap address; a phase where PLAY is pressed while a request waits at the end of the tape.",
         "Trusted: LD-BYTES model (cross-checked against the real ROM running in real time by C11).",
         "DESIGN.md section 5 (C10)",
         "E4 tape models + emulator",
@@ -90,7 +90,7 @@ CHECKS = {
     "C11": (
         "property-based testing (proptest): pulse generator under generated time-step schedules vs. a synthesised nominal waveform; real ROM loader in real time vs. LD-BYTES model",
         "exploration",
-        "Component level: every interval between EAR edges, for any partition of time into 1..16 T steps, must lie in [nominal, nominal+32] with exact count and order (pilot 8063 / >= 3223, sync 667+735, two pulses per bit MSB first, ~1 s pause). System level: the real ROM LD-BYTES loads the playing tape and must return the carry, IX, DE and memory the block's bytes imply.",
+        "Component level: every interval between EAR edges, for any partition of time into 1..16 T steps, must lie in [nominal, nominal+32] with exact count and order (pilot 8063 / >= 3223, sync 667+735, two pulses per bit MSB first, ~1 s pause). System level: the real ROM LD-BYTES loads the playing tape and must return the carry, IX, DE and memory the block's bytes imply. Tape assets deliver all at once or in short reads; half of the real-time loads run with the host's fast-load setting on and a third after an SZX with a KEYB chunk; a further phase checks the EAR bit on generated ULA addresses against bracketing reads of 0x7FFE.",
         "Trusted: waveform synthesiser and LD-BYTES model written from the format/ROM documentation; Tap re-export hook.",
         "DESIGN.md section 5 (C11)",
         "E4 tape models + emulator",
@@ -98,7 +98,7 @@ CHECKS = {
     "C12": (
         "property-based testing (proptest) of play/stop/rewind/advance command histories against a deck model with a waveform-prefix oracle",
         "exploration",
-        "Generated command histories drive the pulse generator; no edge may occur while stopped, and the edge stream over playing time, cut at rewinds and complete passes, must always be a prefix of the nominal waveform of the whole tape (clean pilot, every pulse in tolerance), so blocks appear once and in order; a replay after the end needs a play command.",
+        "Generated command histories drive the pulse generator; no edge may occur while stopped, and the edge stream over playing time, cut at rewinds and complete passes, must always be a prefix of the nominal waveform of the whole tape (clean pilot, every pulse in tolerance), so blocks appear once and in order; a replay after the end needs a play command. Further phases: long blocks around the 128-byte buffer multiples, assets with short reads or handed over at a non-zero offset, and an emulator-level phase in which a stopped deck must stay frozen across save_snapshot, load_screen, pokes and setting calls.",
         "Trusted: deck model and nominal waveform; Tap re-export hook. Short data-flag blocks only.",
         "DESIGN.md section 5 (C12)",
         "E4 tape models",
@@ -106,7 +106,7 @@ CHECKS = {
     "C13": (
         "property-based testing (proptest): save/load round trip + frame condition + independent parser + behavioural continuation against the reference machine",
         "exploration",
-        "Arbitrary machine states (registers, latch incl. lock, border, RAM) are built through hooks; save_snapshot must leave registers, every RAM bank, latch and border untouched and produce a file that the harness' own SNA parser reads back to that state; loading it into the same emulator after scrambling, or a fresh / halted / mid-prefix / paging-locked / EI-pending one, must restore every carried item and all CPU-visible memory, and the following instructions (with an interrupt on the way) must match the reference machine continuing from the saved state.",
+        "Arbitrary machine states (registers, latch incl. lock, border, RAM) are built through hooks; save_snapshot must leave registers, every RAM bank, latch and border untouched and produce a file that the harness' own SNA parser reads back to that state; loading it into the same emulator after scrambling, or a fresh / halted / mid-prefix / paging-locked / EI-pending one, must restore every carried item and all CPU-visible memory, and the following instructions (with an interrupt on the way) must match the reference machine continuing from the saved state. Also: SP at page boundaries, halted saved machines, a recorder taking a few bytes per call, a recorder that fails (the failed save must leave the machine as it was), INT active when the loaded machine starts, receivers stopped mid-frame, and a second generation (the restored machine saved again and loaded into a fresh one).",
         REF + "48K proviso (two bytes below SP in RAM) applied as a counted generator skip.",
         "DESIGN.md section 5 (C13)",
         "E3 formats + E2 reference machine",
@@ -114,7 +114,7 @@ CHECKS = {
     "C14": (
         "property-based testing (proptest) with independent SNA/SZX/SCR writers: direct state comparison, lock-step behaviour, metamorphic equality across encodings, mismatch rejection",
         "exploration",
-        "Abstract states are encoded as SNA, SZX stored/zlib and 'fancy' SZX (permuted chunks, unknown chunks, lower-case ids) and loaded into receivers in six prior states; registers, RAM, latch, border, cycle counter, MEMPTR, HALTED and EILAST behaviour, AY read-back and audible tone, mouse presence and the displayed picture are compared with the described state; all encodings of one state must behave identically; files of the other model must be rejected or applied with the right layout; repository SNA assets cross-check the harness parser.",
+        "Abstract states are encoded as SNA, SZX stored/zlib and 'fancy' SZX (permuted chunks, unknown chunks, lower-case ids) and loaded into receivers in six prior states; registers, RAM, latch, border, cycle counter, MEMPTR, HALTED and EILAST behaviour, AY read-back and audible tone, mouse presence and the displayed picture are compared with the described state; all encodings of one state must behave identically; files of the other model must be rejected or applied with the right layout; repository SNA assets cross-check the harness parser. Also: files delivered in short reads, unknown chunks bigger than a page, chFe different from chBorder, AMX mouse type, receivers with the AY off or with a mouse of their own or stopped mid-frame, both screen banks displayed, and the file's one-shot envelope must start again when the same file is loaded a second time.",
         REF + "Only well-formed files are generated here (C15 owns malformed input).",
         "DESIGN.md section 5 (C14)",
         "E3 formats + E2 reference machine",
@@ -122,7 +122,7 @@ CHECKS = {
     "C15": (
         "fault enumeration at every asset call index + property-based structure-aware corruption (proptest) + coverage-guided fuzzing (libFuzzer) with a totality monitor",
         "fault_enumeration",
-        "Every loader (SNA, SZX, SCR, TAP incl. fast-load request and real-time playing, ROM, gzip, VTX incl. playing) is exercised on both machines with: a fault (error / short read / premature EOF, one-shot or sticky) at every read/seek index of a successful load; valid files with field/structure mutations; explicit adversarial SZX chunk lists and VTX headers; uniform bytes up to 160 KiB; the committed corpus. The monitor catches panics with overflow checks and debug assertions on (profile `checked`), counts allocations (single request > max(16 MiB, 64x input) is a violation), detects read-after-EOF loops deterministically, and requires 3 more frames of emulation afterwards. Thorough adds a libFuzzer campaign (16 workers) on the same oracle.",
+        "Every loader (SNA, SZX, SCR, TAP incl. fast-load request and real-time playing, ROM, gzip, VTX incl. playing) is exercised on both machines with: a fault (error / short read / premature EOF, one-shot or sticky) at every read/seek index of a successful load; valid files with field/structure mutations; explicit adversarial SZX chunk lists and VTX headers; uniform bytes up to 160 KiB; the committed corpus. The monitor catches panics with overflow checks and debug assertions on (profile `checked`), counts allocations (single request > max(16 MiB, 64x input) is a violation), detects read-after-EOF loops deterministically, and requires 3 more frames of emulation afterwards. Thorough adds a libFuzzer campaign (16 workers) on the same oracle. Also: every length within a few bytes of each structural boundary of every format, gzip and SZX-zlib inputs of high ratio, chunk bodies of 64-70 KiB really present, fast loads to the top of memory, receiving emulators stopped mid-frame.",
         "Trusted: the monitor (catch_unwind, counting allocator, work counter). Open known finding: panic inside the pinned delharc LH5 decoder (tolerated by signature, probed on every run).",
         "DESIGN.md section 5 (C15)",
         "E3 formats + fault-injecting assets + libFuzzer target",
@@ -130,7 +130,7 @@ CHECKS = {
     "C16": (
         "property-based metamorphic testing (proptest): the same scenario under different host drivings and asset implementations must reach identical state hashes",
         "exploration",
-        "Generated interrupt-driven programs with AY/beeper/paging/screen/keyboard/joystick/mouse/tape activity and frame-indexed input scripts are run one frame per call (reference) and again under a partition into FrameCount(n) calls, maximum-speed mode with scripted stopwatch readings, breakpoint stops with resumption, undrained audio, sound switched off, and with the initial file delivered through BufferCursor, FileAsset, GzipAsset or 1..255-byte short reads; hashes of registers, all RAM, paging, frame clock, canvas and border must agree at every common frame count; repeated runs must also agree on audio bit for bit.",
+        "Generated interrupt-driven programs with AY/beeper/paging/screen/keyboard/joystick/mouse/tape activity and frame-indexed input scripts are run one frame per call (reference) and again under a partition into FrameCount(n) calls, maximum-speed mode with scripted stopwatch readings, breakpoint stops with resumption, undrained audio, sound switched off, and with the initial file delivered through BufferCursor, FileAsset, GzipAsset or 1..255-byte short reads; hashes of registers, all RAM, paging, frame clock, canvas and border must agree at every common frame count; repeated runs must also agree on audio bit for bit. The tape image and (with short reads) the ROM images travel through the asset kinds too; 128K snapshots have any bank paged (long SNA layout); sound is switched on and off between frames in one driving.",
         "Trusted: frame-counter hook for alignment; inputs applied between calls at equal frame indices.",
         "DESIGN.md section 5 (C16)",
         "emulator metamorphic driver",
@@ -146,7 +146,7 @@ CHECKS = {
     "C18": (
         "property-based testing (proptest) with signal-feature oracles (crossing counts, ramp contours, levels) on the sound generator; emulated port read-back",
         "exploration",
-        "Register programmes over chip type, clock 1-2 MHz, sample rate 8-384 kHz and stereo mode are rendered and judged by features with stated tolerances: tone frequency f_clk/(16 TP) by hysteresis crossing count (write order permuted), noise clock by transition rate and its halving when NP doubles, all 16 envelope shapes by the contour of the first four ramps of length 256 EP/f_clk, volume monotonicity, mixer gating, panning per mode, finiteness and bounds under arbitrary write/generate interleavings; AY port read-back and register numbers modulo 16 through the emulated CPU. Thorough sweeps all 4095 periods x 3 channels.",
+        "Register programmes over chip type, clock 1-2 MHz, sample rate 8-384 kHz and stereo mode are rendered and judged by features with stated tolerances: tone frequency f_clk/(16 TP) by hysteresis crossing count (write order permuted), noise clock by transition rate and its halving when NP doubles, all 16 envelope shapes by the contour of the first four ramps of length 256 EP/f_clk, volume monotonicity, mixer gating, panning per mode, finiteness and bounds under arbitrary write/generate interleavings; AY port read-back and register numbers modulo 16 through the emulated CPU. Thorough sweeps all 4095 periods x 3 channels. The period is also measured edge to edge; integer presentations of samples must equal the clipped full-scale product; a ports-to-sound phase compares the chip behind the Spectrum ports sample for sample with the same register history written directly.",
         "Trusted: feature extractors and tolerances stated in the evidence. Open known finding: tone period 1 renders as a flat level (tolerated only in that class).",
         "DESIGN.md section 5 (C18)",
         "E5 audio feature extractors",
@@ -154,7 +154,7 @@ CHECKS = {
     "C19": (
         "property-based differential testing (proptest): sample counts and per-sample speaker levels against the reference machine's timestamped ULA writes",
         "exploration",
-        "Generated speaker-toggling programs at rates 8000-384000, volumes, enable combinations and drain behaviours: cumulative sample count must be frames x floor(rate/50); with the beeper alone every sample must equal the level of a speaker/MIC state current within one sample period of its frame time (levels measured on a calibration machine, states and times from the reference machine); monotone in EAR then MIC, left = right, linear in volume, volume 0 silent, finite; undrained queues stay below two frames.",
+        "Generated speaker-toggling programs at rates 8000-384000, volumes, enable combinations and drain behaviours: cumulative sample count must be frames x floor(rate/50); with the beeper alone every sample must equal the level of a speaker/MIC state current within one sample period of its frame time (levels measured on a calibration machine, states and times from the reference machine); monotone in EAR then MIC, left = right, linear in volume, volume 0 silent, finite; undrained queues stay below two frames. The per-frame count is bounded by the overshoot of the frame-crossing instruction; in a third of the cases the host re-asserts its settings mid-run.",
         REF,
         "DESIGN.md section 5 (C19)",
         "E2 reference machine + emulator",
@@ -162,7 +162,7 @@ CHECKS = {
     "C20": (
         "property-based testing (proptest): recording-backend schedule oracle + chunking metamorphic relation + writer/loader round trip",
         "exploration",
-        "Generated search over register logs, rates, player frequencies and output partitions. Frame k's register writes must occur exactly at sample k*floor(rate/pf) (observed through a recording AymBackend), the total sample count and end-of-stream report must be exact, the real generator's i16/f32 streams must be bit-identical for any partition, and Vtx::load of an independently written file must return the log byte for byte. Sampling, not proof.",
+        "Generated search over register logs, rates, player frequencies and output partitions. Frame k's register writes must occur exactly at sample k*floor(rate/pf) (observed through a recording AymBackend), the total sample count and end-of-stream report must be exact, the real generator's i16/f32 streams must be bit-identical for any partition, and Vtx::load of an independently written file must return the log byte for byte. Sampling, not proof. Decoding goes through readers with short reads as well.",
         "Trusted: the harness' VTX writer and literal-only LH5 encoder; AymBackend as observation seam. Domain: pf 1..255, rate 8000..96000, 0..400 frames (5000 in decode).",
         "DESIGN.md section 5, C20",
         "E3 formats + proptest driver",
